@@ -39,3 +39,9 @@ func (r *R) Chance(num, den int) bool { return r.Intn(den) < num }
 
 // Pick returns one of the strings.
 func (r *R) Pick(xs []string) string { return xs[r.Intn(len(xs))] }
+
+// State returns the whole state of the generator.
+func (r *R) State() uint64 { return r.s }
+
+// FromState rebuilds a generator from its state.
+func FromState(s uint64) *R { return &R{s: s} }
